@@ -187,12 +187,40 @@ def late_error_monitor(ctx, sc, out):
                       "wrong-data" if res == "wrong-data" else "enough-good-shares-read-failed-" + res)
 
 
+def late_dyhb_monitor(ctx, sc, out):
+    """a share-location answer that arrives while no fetcher runs, then loss of a server used so far"""
+    case = {"kind": "late-dyhb", "sc": sc}
+    if out["upload"] != "ok" or not out["setup_ok"]:
+        ctx.count("late-dyhb-setup-not-reached")
+        return
+    ctx.case(json.dumps(sc))
+    res = out["result"]
+    ctx.count("late-dyhb:%s:%s" % (sc["mode"], res))
+    if res == "stuck":
+        ctx.violation("read never completed although every server answered or failed", case, "late-dyhb-read-stuck",
+                      detail={"unhandled": out.get("unhandled")})
+    elif res == "wrong-data":
+        ctx.violation("read returned wrong bytes", case, "wrong-data")
+    elif sc["mode"] == "control":
+        if res == "ok":
+            ctx.violation("data returned although only one share is reachable (k=2)", case, "data-with-too-few-shares")
+        elif res not in ("NotEnoughSharesError", "NoSharesError"):
+            ctx.violation("read failed with %s instead of NotEnoughSharesError/NoSharesError" % res, case,
+                          "too-few-shares-wrong-error-" + res)
+    elif res != "ok":
+        ctx.violation("2 intact shares are on answering servers (one announced while the node was idle) but the %s "
+                      "failed with %s (node knows %s shares)" % ("resumed read" if sc["mode"] == "resume" else "second read",
+                                                                 res, out.get("node_shares")), case,
+                      "late-share-answer-dropped-read-failed")
+
+
 def run(ctx):
     common.setup_impl_path()
     B = (lambda q, t: 0) if fc.corpus_only() else ctx.budget
     fcases, impl, lines = [], [], []
     scenarios = []
     late = []
+    lated = []
     if ctx.replay:
         c = ctx.replay.get("case") or ((ctx.replay.get("correspondence_disagreements") or [{}])[0].get("case")) or {}
         if c.get("kind") == "fetch":
@@ -204,6 +232,8 @@ def run(ctx):
             scenarios.append(c["sc"])
         elif c.get("kind") == "late-error":
             late.append(c["sc"])
+        elif c.get("kind") == "late-dyhb":
+            lated.append(c["sc"])
     else:
         for (k, toks) in CORPUS:
             digs, verdict = fc.replay_fetch_script(k, toks)
@@ -246,6 +276,10 @@ def run(ctx):
             scenarios.append(fc.gen_hashdamage_scenario(ctx.rng))
         if ctx.tier == "thorough" and not fc.corpus_only():
             scenarios.append(fc.big_badguess_scenario())
+        for m in ("second-read", "resume", "control"):      # corpus (seeded C03-e): late get_buckets answer while idle
+            lated.append(fc.gen_late_dyhb_scenario(None, mode=m, canonical=True))
+        for i in range(B(30, 600)):
+            lated.append(fc.gen_late_dyhb_scenario(ctx.rng))
         late.append(fc.gen_late_error_scenario(None, canonical=True))      # corpus: minimised history
         for i in range(B(30, 700)):
             late.append(fc.gen_late_error_scenario(ctx.rng))
@@ -271,5 +305,14 @@ def run(ctx):
         late_error_monitor(ctx, sc, out)
         ctx.sample({"late-error": sc, "outcome": {k: out.get(k) for k in ("result", "roles", "silent_death", "dead_get_block")}},
                    limit=9)
+    for sc in lated:
+        try:
+            out = fc.run_late_dyhb(sc)
+        except Exception as e:
+            import traceback
+            ctx.disagree("harness exception in one late-dyhb scenario (recorded, run continues)", {"kind": "late-dyhb", "sc": sc},
+                         traceback.format_exc()[-600:], None)
+            continue
+        late_dyhb_monitor(ctx, sc, out)
     for k, v in fc.WAIT_STATS.items():
         ctx.count("wait:" + k, v)
